@@ -19,6 +19,11 @@ Init == \/ \E bx \in V, by \in V, ex \in V, ey \in V :
         \/ \E h \in LoadAx, w \in LoadAx : ((h.d = 0 /\ h.f) \/ (w.d = 0 /\ w.f)) /\
           LET a == [op |-> "load", bx |-> 0, by |-> 0, ex |-> 0, ey |-> 0, v |-> 0, x |-> h.p, cx |-> h.d, fh |-> h.f, y |-> w.p, cy |-> w.d, fv |-> w.f] IN
           hist = <<a>> /\ st = CxnImplStep([x |-> 0], a)
+        \* ... and connectors a document holds TURNED (rot = 180 degrees: the end-over-end connector PowerPoint writes when a connector is
+        \* dragged across itself): begin and end are what offset, extent and flips say, whatever the rotation; it stays as it was
+        \/ \E h \in {l \in LoadAx : l.p = 0}, w \in {l \in LoadAx : l.p = 0} :
+          LET a == [op |-> "load", bx |-> 0, by |-> 0, ex |-> 0, ey |-> 0, v |-> 0, x |-> h.p, cx |-> h.d, fh |-> h.f, y |-> w.p, cy |-> w.d, fv |-> w.f, rot |-> 10800000] IN
+          hist = <<a>> /\ st = CxnImplStep([x |-> 0], a)
 Set(op, v) == Len(hist) <= DEPTH /\ LET a == [op |-> op, v |-> v, bx |-> 0, by |-> 0, ex |-> 0, ey |-> 0] IN
                 st' = CxnImplStep(st, a) /\ hist' = Append(hist, a)
 SetBeginX == \E v \in V : Set("bx", v)
@@ -27,7 +32,8 @@ SetEndX   == \E v \in V : Set("ex", v)
 SetEndY   == \E v \in V : Set("ey", v)
 Next == SetBeginX \/ SetBeginY \/ SetEndX \/ SetEndY
 Spec == Init /\ [][Next]_<<st, hist>>
-ViewSt == st
+\* (one history per state - and per rotation the connector was loaded with: a turned connector is another document, whatever its frame)
+ViewSt == <<st, IF "rot" \in DOMAIN hist[1] THEN hist[1].rot ELSE 0>>
 InvState == CxnFailing(st, hist[1], st) \subseteq {"Created", "MovedCoordinate", "OtherThreeFixed"} /\ (Len(hist) = 1 => CxnFailing(st, hist[1], st) = {})
 Refines == [][CxnFailing(st, hist'[Len(hist')], st') = {}]_<<st, hist>>
 EmitState == PrintT(<<"ST", ToJson(hist)>>)
